@@ -128,11 +128,11 @@ def e2e_cases(prop, tier, rng):
     if prop == 'C01':
         fm = ('f64',)
         cs = g_rand(rng, 2500 * k, fm) + g_mid(rng, 2500 * k, fm) + [c for c in g_fast(rng, 400 * k) if c.fmt == 'f64'] + \
-            g_seam(rng, 300 * k, fm) + g_ext(rng, 300 * k, fm, big) + g_sub(rng, 400 * k, fm) + g_trunc(rng, 300 * k, fm) + nt_pf_cases('f64', rng, scale(tier, 3, 30))
+            g_seam(rng, 300 * k, fm) + g_ext(rng, 300 * k, fm, big) + g_sub(rng, 400 * k, fm) + g_trunc(rng, 300 * k, fm) + nt_pf_cases('f64', rng, scale(tier, 3, 30)) + tie_pf_cases('f64', rng, scale(tier, 12, 100))
     elif prop == 'C02':
         fm = ('f32',)
         cs = g_rand(rng, 2500 * k, fm) + g_mid(rng, 3000 * k, fm) + [c for c in g_fast(rng, 400 * k) if c.fmt == 'f32'] + \
-            g_seam(rng, 300 * k, fm) + g_ext(rng, 300 * k, fm, big) + g_sub(rng, 400 * k, fm) + g_trunc(rng, 300 * k, fm) + nt_pf_cases('f32', rng, scale(tier, 8, 60))
+            g_seam(rng, 300 * k, fm) + g_ext(rng, 300 * k, fm, big) + g_sub(rng, 400 * k, fm) + g_trunc(rng, 300 * k, fm) + nt_pf_cases('f32', rng, scale(tier, 8, 60)) + tie_pf_cases('f32', rng, scale(tier, 12, 100))
     elif prop == 'C04':
         cs = g_seam(rng, 600 * k) + g_ext(rng, 1200 * k, big=big) + g_rand(rng, 2000 * k) + g_sub(rng, 300 * k) + g_mid(rng, 600 * k) + g_long(rng, scale(tier, 6, 40), big)
     elif prop == 'C05':
@@ -215,6 +215,21 @@ def nt_pf_cases(fmt, rng, per_q):
             # the truncated reading: 19 digits followed by more digits
             tail = rng.choice(['0' * rng.range(1, 5) + '1', '9' * rng.range(1, 30), rng.digits(rng.range(1, 40))])
             out.append(PF(fmt, str(w), tail, q, 'G-NT/trunc'))
+    return out
+
+
+def tie_pf_cases(fmt, rng, per_q):
+    """exact ties w*10^q = (2m+1)*2^j constructed algebraically for every q inside and just outside
+    the round-to-even window, as end-to-end inputs (w, w+1, w-1; also re-split and with trailing
+    zeros moved into the exponent)"""
+    from .props2 import g_tie_stage
+    out = []
+    for (w, q) in g_tie_stage(fmt, rng, per_q):
+        s = str(w)
+        out.append(PF(fmt, s, '', q, 'G-TIE'))
+        if len(s) > 1 and rng.below(2):
+            k = rng.range(1, len(s) - 1)
+            out.append(PF(fmt, s[:k], s[k:], q + len(s) - k, 'G-TIE/split'))
     return out
 
 
